@@ -4,6 +4,8 @@ import (
 	"bytes"
 	"encoding/base64"
 	"fmt"
+	otr3 "github.com/coyim/otr3"
+	"strconv"
 	"strings"
 )
 
@@ -98,104 +100,255 @@ func readableIn(out []byte, text string) bool {
 
 // C03: user text never reaches the wire in readable form when encryption is due
 func genC03(c *Ctx) {
-	c.Rep.Rule = "lifecycle histories (send, deliver, query, End, error message, tick) over random policy pairs; every step compared with the abstract machine; oracle: every wire output of a call made while the caller is encrypted, finished, or plaintext under require-encryption is searched (raw and inside base64) for every text ever given to that party's Send; finished / require-encryption Send emit no data message at all"
-	n := 8
+	c.Rep.Rule = "directed sweep: ten lifecycle phases (plaintext, exchange started, encrypted via query / via whitespace tag, peer ended, peer ended + new exchange in flight, peer ended + re-keyed, locally ended, refresh in flight, refreshed) x actions (Send of ordinary and of protocol-looking texts, injected plaintext and error messages, End, peer disconnect) x policy sets; plus random lifecycle histories; every step compared with the abstract machine; oracle: every wire output of a call made while the caller is encrypted, finished, or plaintext under require-encryption is searched (raw and inside base64) for every text ever given to that party's Send; finished / require-encryption Send emit no data message at all"
+	phaseSweep(c, func(s *Sys, pols []int) { c03Oracle(c, s); c.AddScenario(s, pols) })
+	n := 20
 	steps := 40
 	if c.Thorough() {
 		n, steps = 200, 120
 	}
 	for i := 0; i < n; i++ {
 		lr := lifeScenario(c, steps)
-		s := lr.s
-		given := map[int][]string{}
-		for _, call := range s.calls {
-			if strings.HasPrefix(call.human, "Send(") {
-				t := call.human[strings.Index(call.human, "\"")+1 : strings.LastIndex(call.human, "\"")]
-				given[call.who] = append(given[call.who], t)
-			}
-			due := call.preState != 0 || s.ps[call.who].pol&polRequire != 0
-			if due {
-				for _, o := range call.outs {
-					for _, t := range given[call.who] {
-						if readableIn(o, t) {
-							c.Violate("text-readable-on-wire", fmt.Sprintf("state=%d", call.preState), fmt.Sprintf("%s emitted %q containing text %q", call.human, trunc(o), t), s.trace)
-						}
-					}
-				}
-			}
-			if strings.HasPrefix(call.human, "Send(") && (call.preState == 2 || (call.preState == 0 && s.ps[call.who].pol&polRequire != 0 && s.ps[call.who].pol&(polV2|polV3) != 0)) {
-				for _, o := range call.outs {
-					if w := parseWire(o); w.kind == 4 || w.kind == 0 {
-						c.Violate("text-emitted-when-refused", fmt.Sprintf("state=%d", call.preState), fmt.Sprintf("%s emitted a message of kind %d", call.human, w.kind), s.trace)
-					}
-				}
-			}
-		}
-		if s.panicked {
-			c.Violate("panic", "lifecycle", "a call panicked", s.trace)
-		}
-		c.AddScenario(s, lr.pols)
+		c03Oracle(c, lr.s)
+		c.AddScenario(lr.s, lr.pols)
 		if i == 0 {
-			c.Sample(s.trace[:min2(12, len(s.trace))])
+			c.Sample(lr.s.trace[:min2(12, len(lr.s.trace))])
 		}
+	}
+}
+
+func c03Oracle(c *Ctx, s *Sys) {
+	given := map[int][]string{}
+	for _, call := range s.calls {
+		if strings.HasPrefix(call.human, "Send(") {
+			t := call.human[strings.Index(call.human, "\"")+1 : strings.LastIndex(call.human, "\"")]
+			if u, err := strconv.Unquote("\"" + t + "\""); err == nil {
+				t = u
+			}
+			given[call.who] = append(given[call.who], t)
+		}
+		if call.human == "probe" {
+			continue
+		}
+		due := call.preState != 0 || s.ps[call.who].pol&polRequire != 0
+		if due {
+			for _, o := range call.outs {
+				for _, t := range given[call.who] {
+					if readableIn(o, t) {
+						c.Violate("text-readable-on-wire", fmt.Sprintf("state=%d", call.preState), fmt.Sprintf("%s emitted %q containing text %q", call.human, trunc(o), t), s.trace)
+					}
+				}
+			}
+		}
+		if strings.HasPrefix(call.human, "Send(") && (call.preState == 2 || (call.preState == 0 && s.ps[call.who].pol&polRequire != 0 && s.ps[call.who].pol&(polV2|polV3) != 0)) {
+			for _, o := range call.outs {
+				if w := parseWire(o); w.kind == 4 || w.kind == 0 {
+					c.Violate("text-emitted-when-refused", fmt.Sprintf("state=%d", call.preState), fmt.Sprintf("%s emitted a message of kind %d", call.human, w.kind), s.trace)
+				}
+			}
+		}
+	}
+	if s.panicked {
+		c.Violate("panic", "lifecycle", "a call panicked", s.trace)
 	}
 }
 
 // C18: lifecycle, security events, retransmission discipline
 func genC18(c *Ctx) {
-	c.Rep.Rule = "lifecycle histories over random policy pairs, compared step by step with the abstract machine; oracles: GoneSecure / GoneInsecure exactly when IsEncrypted flips during a call, Send refuses after the peer's disconnect until End, every text is received by the peer at most once plain and at most once marked [resent]"
-	n := 8
+	c.Rep.Rule = "directed sweep over ten lifecycle phases x actions x policy sets (see C03) plus random lifecycle histories, compared step by step with the abstract machine; oracles: GoneSecure / GoneInsecure exactly when IsEncrypted flips during a call, StillSecure only inside an encrypted session, Send refuses after the peer's disconnect until End, End always leaves plaintext, every text is received by the peer at most once plain and at most once marked [resent]"
+	phaseSweep(c, func(s *Sys, pols []int) { c18Oracle(c, s); c.AddScenario(s, pols) })
+	n := 20
 	steps := 45
 	if c.Thorough() {
 		n, steps = 200, 130
 	}
 	for i := 0; i < n; i++ {
 		lr := lifeScenario(c, steps)
-		s := lr.s
-		for _, call := range s.calls {
-			wasEnc, isEnc := call.preState == 1, call.postState == 1
-			gs, gi := eventsHave(call.events, 101), eventsHave(call.events, 100)
-			if (!wasEnc && isEnc) != gs {
-				c.Violate("gone-secure-mismatch", fmt.Sprintf("%d->%d", call.preState, call.postState), fmt.Sprintf("%s: GoneSecure=%v", call.human, gs), s.trace)
-			}
-			if (wasEnc && !isEnc) != gi {
-				c.Violate("gone-insecure-mismatch", fmt.Sprintf("%d->%d", call.preState, call.postState), fmt.Sprintf("%s: GoneInsecure=%v", call.human, gi), s.trace)
-			}
-			if eventsHave(call.events, 102) && !(wasEnc && isEnc) {
-				c.Violate("still-secure-mismatch", fmt.Sprintf("%d->%d", call.preState, call.postState), call.human, s.trace)
-			}
-			if strings.HasPrefix(call.human, "Send(") && call.preState == 2 && (len(call.outs) > 0 || !call.err) {
-				c.Violate("send-after-peer-end", "finished", fmt.Sprintf("%s did not refuse", call.human), s.trace)
-			}
-			if strings.HasPrefix(call.human, "End(") && call.postState != 0 {
-				c.Violate("end-not-plaintext", fmt.Sprint(call.postState), call.human, s.trace)
-			}
-		}
-		// transmissions as seen by the peer
-		for who := 1; who <= 2; who++ {
-			peer := s.ps[3-who]
-			plainCount, resentCount := map[string]int{}, map[string]int{}
-			for _, p := range peer.plains {
-				ps := string(p)
-				if strings.HasPrefix(ps, "[resent] ") {
-					resentCount[strings.TrimPrefix(ps, "[resent] ")]++
-				} else {
-					plainCount[ps]++
-				}
-			}
-			for _, t := range s.ps[who].texts {
-				ts := string(t)
-				if plainCount[ts] > 1 {
-					c.Violate("text-transmitted-twice", "plain", fmt.Sprintf("text %q was received %d times", ts, plainCount[ts]), s.trace)
-				}
-				if resentCount[ts] > 1 {
-					c.Violate("text-transmitted-twice", "resent", fmt.Sprintf("text %q was received %d times marked resent", ts, resentCount[ts]), s.trace)
-				}
-			}
-		}
-		c.AddScenario(s, lr.pols)
+		c18Oracle(c, lr.s)
+		c.AddScenario(lr.s, lr.pols)
 		if i == 0 {
-			c.Sample(s.trace[:min2(12, len(s.trace))])
+			c.Sample(lr.s.trace[:min2(12, len(lr.s.trace))])
+		}
+	}
+}
+
+func c18Oracle(c *Ctx, s *Sys) {
+	for _, call := range s.calls {
+		if call.human == "probe" {
+			continue
+		}
+		wasEnc, isEnc := call.preState == 1, call.postState == 1
+		gs, gi := eventsHave(call.events, 101), eventsHave(call.events, 100)
+		if (!wasEnc && isEnc) != gs {
+			c.Violate("gone-secure-mismatch", fmt.Sprintf("%d->%d", call.preState, call.postState), fmt.Sprintf("%s: GoneSecure=%v", call.human, gs), s.trace)
+		}
+		if (wasEnc && !isEnc) != gi {
+			c.Violate("gone-insecure-mismatch", fmt.Sprintf("%d->%d", call.preState, call.postState), fmt.Sprintf("%s: GoneInsecure=%v", call.human, gi), s.trace)
+		}
+		if eventsHave(call.events, 102) && !(wasEnc && isEnc) {
+			c.Violate("still-secure-mismatch", fmt.Sprintf("%d->%d", call.preState, call.postState), call.human, s.trace)
+		}
+		if strings.HasPrefix(call.human, "Send(") && call.preState == 2 && (len(call.outs) > 0 || !call.err) {
+			c.Violate("send-after-peer-end", "finished", fmt.Sprintf("%s did not refuse", call.human), s.trace)
+		}
+		if strings.HasPrefix(call.human, "End(") && call.postState != 0 {
+			c.Violate("end-not-plaintext", fmt.Sprint(call.postState), call.human, s.trace)
+		}
+	}
+	// transmissions as seen by the peer
+	for who := 1; who <= 2; who++ {
+		peer := s.ps[3-who]
+		plainCount, resentCount := map[string]int{}, map[string]int{}
+		for _, p := range peer.plains {
+			ps := string(p)
+			if strings.HasPrefix(ps, "[resent] ") {
+				resentCount[strings.TrimPrefix(ps, "[resent] ")]++
+			} else {
+				plainCount[ps]++
+			}
+		}
+		for _, t := range s.ps[who].texts {
+			ts := string(t)
+			if plainCount[ts] > 1 {
+				c.Violate("text-transmitted-twice", "plain", fmt.Sprintf("text %q was received %d times", ts, plainCount[ts]), s.trace)
+			}
+			if resentCount[ts] > 1 {
+				c.Violate("text-transmitted-twice", "resent", fmt.Sprintf("text %q was received %d times marked resent", ts, resentCount[ts]), s.trace)
+			}
+		}
+	}
+}
+
+// ---- directed sweep: lifecycle phase x action x policies ----
+const (
+	phPlain = iota
+	phAkeStarted
+	phEncQuery
+	phEncWS
+	phFinished
+	phFinishedAke
+	phFinishedReEnc
+	phEnded
+	phRefreshing
+	phRefreshed
+	nPhases
+)
+
+var phaseNames = []string{"plaintext", "exchange-started", "encrypted(query)", "encrypted(whitespace)", "peer-ended", "peer-ended+exchange-in-flight", "peer-ended+rekeyed", "locally-ended", "refresh-in-flight", "refreshed"}
+
+// reachPhase brings party 1 into the phase (party 2 is the peer); false if the policies do not allow it
+func reachPhase(s *Sys, ph int) bool {
+	enc := func() bool { return s.ps[1].c.IsEncrypted() && s.ps[2].c.IsEncrypted() }
+	establish := func() bool {
+		s.Query(2, 1)
+		s.Pump(1, 2, 20)
+		return enc()
+	}
+	switch ph {
+	case phPlain:
+		return true
+	case phAkeStarted:
+		s.Query(2, 1)
+		return true
+	case phEncQuery:
+		return establish()
+	case phEncWS:
+		if s.ps[1].pol&polSendWS == 0 || s.ps[2].pol&polWSStart == 0 {
+			return false
+		}
+		s.Send(1, []byte("tagged hello"))
+		s.Pump(1, 2, 20)
+		return enc()
+	case phFinished, phFinishedAke, phFinishedReEnc:
+		if !establish() {
+			return false
+		}
+		s.End(2)
+		s.Pump(1, 2, 6)
+		if otr3.VerifSnapshot(s.ps[1].c).MsgState != 2 {
+			return false
+		}
+		if ph == phFinishedAke {
+			s.tick(130)
+			s.Query(2, 1)
+		}
+		if ph == phFinishedReEnc {
+			s.tick(130)
+			s.Query(2, 1)
+			s.Pump(1, 2, 20)
+		}
+		return true
+	case phEnded:
+		if !establish() {
+			return false
+		}
+		s.End(1)
+		return true
+	case phRefreshing, phRefreshed:
+		if !establish() {
+			return false
+		}
+		s.tick(130)
+		s.Query(2, 1)
+		if ph == phRefreshed {
+			s.Pump(1, 2, 20)
+		}
+		return true
+	}
+	return false
+}
+
+func phaseSweep(c *Ctx, each func(s *Sys, pols []int)) {
+	policySets := [][]int{
+		{polV3, polV3},
+		{polV2, polV2},
+		{polV2 | polV3 | polRequire, polV2 | polV3 | polErrStart},
+		{polV3 | polSendWS, polV3 | polWSStart},
+		{polV2 | polV3 | polSendWS | polRequire, polV2 | polWSStart},
+	}
+	texts := []string{"an ordinary line", "?OTRv3? the PIN is 7731", "?OTR? and more", "?OTR Error: not really", "?OTR:AAMDnotbase64."}
+	nAct := 7
+	k := 0
+	for ph := 0; ph < nPhases; ph++ {
+		for act := 0; act < nAct; act++ {
+			for pi, pols := range policySets {
+				k++
+				if !c.Thorough() && (k+ph)%2 == 0 && pi > 0 { // quick: every (phase, action) with the first set, half of the rest
+					continue
+				}
+				s := newSys(pols, c.R.U64())
+				if !reachPhase(s, ph) {
+					continue
+				}
+				st := otr3.VerifSnapshot(s.ps[1].c).MsgState
+				clearOut := st == 0 && pols[0]&polRequire == 0 // Send would put the text on the wire as it is
+				switch act {
+				case 0:
+					s.Send(1, []byte(texts[0]))
+				case 1, 2:
+					t := texts[1+(k%4)]
+					if clearOut {
+						t = texts[0] + " again" // (a protocol-looking text in the clear would be read back as a protocol message)
+					}
+					s.Send(1, []byte(t))
+				case 3:
+					s.Inject(1, []byte("hello in the clear"), fmt.Sprintf("WPlain %s None", coqBytes([]byte("hello in the clear"))))
+				case 4:
+					s.Inject(1, []byte("?OTR Error: oops"), fmt.Sprintf("WError %s", coqBytes([]byte("oops"))))
+				case 5:
+					s.End(1)
+				case 6:
+					s.End(2)
+				}
+				c.Count("phase:" + phaseNames[ph])
+				c.Count(fmt.Sprintf("phase-action:%d", act))
+				s.Pump(1, 2, 24)
+				s.Send(1, []byte(fmt.Sprintf("tail-one-%d", k)))
+				s.Pump(1, 2, 12)
+				s.Send(2, []byte(fmt.Sprintf("tail-two-%d", k)))
+				s.Pump(1, 2, 12)
+				each(s, pols)
+			}
 		}
 	}
 }
